@@ -12,6 +12,15 @@ pub static mut AT_SLEEP: Option<unsafe fn(i64, i64)> = None;
 /// the clock may advance by an arbitrary bounded amount on every read
 pub static mut DRIFT_MAX_NS: i64 = 0;
 
+pub unsafe fn reset() {
+    NOW_S = 0;
+    NOW_NS = 0;
+    CLOCK_READS = 0;
+    SLEEPS = 0;
+    AT_SLEEP = None;
+    DRIFT_MAX_NS = 0;
+}
+
 pub unsafe fn advance(s: i64, ns: i64) {
     NOW_S += s;
     NOW_NS += ns;
